@@ -140,6 +140,31 @@ A.EXTERNAL_CALLS['collections.defaultdict'] = _defaultdict
 A.EXTERNAL_CALLS['collections.OrderedDict'] = _ordereddict
 
 
+def _ordereddict_fromkeys(interp, args, kwargs, node, env):
+    val = args[1] if len(args) > 1 else None
+    return dict((interp.hashable(k), val) for k in interp.iterate(args[0], node))      # one value object shared by all keys, as in Python
+
+
+A.EXTERNAL_CALLS['collections.OrderedDict.fromkeys'] = _ordereddict_fromkeys
+
+
+def _groupby(interp, args, kwargs, node, env):
+    """itertools.groupby(iterable, key): runs of *consecutive* elements with equal keys, as (key, list) pairs"""
+    items = list(interp.iterate(args[0], node))
+    keyf = kwargs.get('key', args[1] if len(args) > 1 else None)
+    out = []
+    for it_ in items:
+        k = it_ if keyf is None else (interp.call_function(keyf, [it_], {}, node) if isinstance(keyf, A.FuncRef) else keyf(interp, [it_], {}, node, env))
+        if out and out[-1][0] == k:
+            out[-1][1].append(it_)
+        else:
+            out.append((k, [it_]))
+    return [(k, list(v)) for k, v in out]
+
+
+A.EXTERNAL_CALLS['itertools.groupby'] = _groupby
+
+
 def _re_sub(interp, args, kwargs, node, env):
     import re
     if all(isinstance(a, str) for a in args[:3]):
